@@ -27,6 +27,16 @@ fixed=[
 ("C15","8a235dd","two unfitted models built from one term expression shared the term objects: a.set_params(lam=...) changed b (and the expression), b.fit differed from a fresh model"),
 ("C15","fde4848","after gridsearch(keep_best=True) self and the returned winner shared terms / distribution / logs: changing self changed the winner's predictions"),
 ("C20","0a01318","user callback hook with a local variable rejected (co_varnames includes locals): AssertionError 'CallBack cannot reference'"),
+("C15","3531369","refit on other data warm-started from the old coef_ could raise OptimizationError although a fresh model fits the same data (LogisticGAM s(0, n_splines=20, lam=0.01))"),
+("C10","3531369","a gridsearch candidate warm-started from the previous candidate's coef_ could diverge and be skipped although a cold fit succeeds: the set of fitted candidates depended on grid order"),
+("C15","b32bdf3","a refit warm-started from the previous coef_ could run to max_iter without converging (deviance 3e115) where a fresh model converges: fit was not history-free"),
+("C11","bb91cd4","loglikelihood(X[:1], y) / loglikelihood(X, y[:1]) returned a number (no X/y length check)"),
+("C11","44955df","fit_quantile on a fitted model within tol returned without validating NaN / wrong-length weights"),
+("C11","1b062ba","tiny valid targets / huge features made fit raise AssertionError instead of a ValueError"),
+("C11","7357099","fitted.gridsearch(X with too few columns, y) swallowed every candidate's ValueError and returned the old model"),
+("C11","4c0952c","gridsearch with only NaN scores raised AttributeError ('NoneType' has no get_params) on valid data"),
+("C11","836f28f","a diverged (non-converged) fit returned finite coef_ but NaN / Inf predictions on its training data"),
+("C09","ef1c7f7","NaN quantile levels / widths were accepted and produced NaN bounds"),
 ("C19","6a443b0","PoissonGAM.gridsearch with exposure/weights != 1: GAM.gridsearch passed weights positionally, PoissonGAM.fit took them as exposure (rates divided twice, candidates unweighted)"),
 ("C10","6a443b0","gridsearch candidate scores of a PoissonGAM with weights differed from an independent fit with those hyper-parameters (same positional-argument defect)"),
 ("C11","c2e8abf","fit_quantile on a fitted model returned without validating y when already within tol"),
@@ -40,8 +50,6 @@ kf={"comment":"known findings (status=known: reported as KNOWN-FINDING, exit 0) 
   "what":"gridsearch over fit_intercept is ignored once the intercept term is in the term list: LinearGAM(s(0, n_splines=6)).gridsearch(X, y, fit_intercept=[True, False]) fits two identical 7-coefficient models (same GCV), an independent LinearGAM(..., fit_intercept=False) has 6 coefficients and another GCV. Not repaired: the auto-added intercept cannot be told from a user-specified one without a design change."},
  {"id":"C10-joint-grid-sequential-validation","property":"C10","status":"known","selector":{"known":"C10-joint-grid-sequential-validation"},
   "what":"joint grid over n_splines x spline_order: candidates whose hyper-parameters are valid together but invalid half-way through the sequential set_params (e.g. n_splines=3 with the old spline_order=3) raise ValueError and are skipped, depending on keyword order: LinearGAM(s(0, n_splines=6, spline_order=3)).gridsearch(X, y, n_splines=[3, 6], spline_order=[1, 3]) fits only (6,1), (6,3). Not repaired: needs deferred validation across a multi-parameter assignment."},
- {"id":"C10-warm-start-divergence-skips-candidate","property":"C10","status":"known","selector":{"known":"C10-warm-start-divergence-skips-candidate"},
-  "what":"a valid candidate warm-started from the previous candidate's coefficients can diverge ('PIRLS optimization has diverged') and is then skipped although a cold fit succeeds (LogisticGAM, spline_order grid [5, 0, 9, 1]): the set of fitted candidates depends on grid order. Not repaired: needs a cold-start retry policy."},
  {"id":"C10-plural-setter-attributeerror","property":"C10","status":"known","selector":{"known":"C10-plural-setter-attributeerror"},
   "what":"a grid over a plural parameter that some term does not have (LinearGAM(s(0) + l(1)).gridsearch(X, y, n_splines=[5, 7])) raises AttributeError from MetaTermMixin.__setattr__ (getattr(term, name) without default) instead of distributing the values to the terms that have the parameter. Not repaired: which terms should receive values is a design decision."}]
 +[{"property":p,"status":"fixed","commit":c,"what":w} for p,c,w in fixed]}
